@@ -212,7 +212,7 @@ class C06(Check):
         im = Impl()
         self.im = im
         try:
-            for part in (self.oracle_record, self.run_corpus, self.corr_append, self.run_namespaces, self.run_block_ends, self.run_cascade,
+            for part in (self.oracle_record, self.run_corpus, self.corr_append, self.run_pairs, self.run_namespaces, self.run_block_ends, self.run_cascade,
                          self.run_sheets, self.run_files, self.oracle_restore):
                 t0 = time.time()
                 ctx.phase(part, ctx, im)
@@ -825,6 +825,52 @@ class C06(Check):
             if got != m:
                 ctx.disagree('Out.append script', {'script': [list(s) for s in script], 'prefs': dp},
                              dec(got[3:]) if got.startswith('OK ') else got, dec(m[3:]) if m.startswith('OK ') else m)
+
+    # -- every adjacent pair of lexemes, on the real Out class and the real tokenizer ---------------------
+    PAIR_CHARS = '!#$%&*+,-./:;<=>?@[]^{|}~()'
+    PAIR_WORDS = [('a', 'IDENT'), ('-a', 'IDENT'), ('u', 'IDENT'), ('url', 'IDENT'), ('1', 'NUMBER'), ('.5', 'NUMBER'),
+                  ('-1', 'NUMBER'), ('+1', 'NUMBER'), ('1px', 'DIMENSION'), ('1e', 'DIMENSION'), ('1%', 'PERCENTAGE'),
+                  ('#ab', 'HASH'), ('s', 'STRING'), ('x', 'URI'), ('f(', 'FUNCTION'), ('@x', 'ATKEYWORD'),
+                  ('U+26', 'UNICODE-RANGE'), ('!important', None), ('/*c*/', 'COMMENT')]
+
+    def run_pairs(self, ctx, im):
+        """The pair table of `Lemmas/OutPairs.lean` on the implementation (same 46 lexemes): two calls on a fresh `Out`,
+        tokenized by cssutils' tokenizer; the tokens must be those of the first call followed by those of the second —
+        under the default record, the minified layout strings, and every single layout string emptied."""
+        Out = im.cu.serialize.Out
+
+        class Obj:
+            def __init__(self, t):
+                self.cssText = t
+        lex = [(c, 'CHAR') for c in self.PAIR_CHARS] + self.PAIR_WORDS
+        lay = {k: '' for k in O.LAYOUT if k != 'indentClosingBrace'}
+        records = [{}, lay] + [{k: ''} for k in sorted(lay)]
+
+        def text(calls):
+            o = Out(im.cu.ser)
+            for v, t in calls:
+                o.append(Obj(v) if t == 'COMMENT' else v, t)
+            return o.value()
+
+        def toks(calls):
+            return [t for t in O.nontoks(text(calls)) if t[0] != 'EOF']
+        for d in records:
+            prefs = self.full(im, d)
+
+            def go():
+                bad = []
+                single = {x: toks([x]) for x in lex}
+                for a in lex:
+                    for b in lex:
+                        if toks([a, b]) != single[a] + single[b]:
+                            bad.append((a, b, text([a, b])))
+                return bad
+            bad = im.with_prefs(prefs, go)
+            ctx.case(key=('pairs', repr(sorted(d.items()))), nontrivial=True, kind='lexeme-pairs')
+            for a, b, t in bad:
+                region = prefs['spacer'] == '' and a[0] in ('*', '|', '^', '$') and a[1] == 'CHAR' and b == ('=', 'CHAR')
+                ctx.violate('two adjacent lexemes are written as another token', {'script': [['s', a[0], a[1], [True, False, False, False]], ['s', b[0], b[1], [True, False, False, False]]], 'prefs': d},
+                            {'text': t}, known='C06-op-equals-fusion' if region else None)
 
     # -- useDefaults() restores the default output byte for byte ------------------------------------
     def oracle_restore(self, ctx, im):
